@@ -875,7 +875,7 @@ def c07(tier):
 
 @check("C08")
 def c08(tier):
-    return broker_check("C08", tier, [("RetainSpec", "cover", 3, 4, "mockSuccess"), ("Retain1Spec", "paths", 4, 5, "mockSuccess"), ("RetTreeLastSpec", "paths", 5, 6, "mockSuccess")], {"C08", "C01"},
+    return broker_check("C08", tier, [("RetainSpec", "cover", 3, 4, "mockSuccess"), ("Retain1Spec", "paths", 4, 5, "mockSuccess"), ("RetTreeLastSpec", "paths", 5, 6, "mockSuccess"), ("RetDupLastSpec", "paths", 4, 5, "mockSuccess")], {"C08", "C01"},
                         "configuration retain: retained / non-retained / empty-payload publishes (QoS 0..2) on parent, child and sibling topics, replacement by "
                         "shorter and longer payloads, subscriptions with literal and wildcard filters (also two filters in one request, in-process subscriber); "
                         "packets after SUBACK and live forwards compared incl. retain flag, QoS, payload bytes. Concurrent part: recorded runs in which one client "
